@@ -20,7 +20,7 @@
 
 import pickle
 from functools import reduce
-from os import makedirs
+from os import makedirs, replace
 from os.path import isdir, isfile, join
 from warnings import warn
 
@@ -429,8 +429,10 @@ def optimize_kl(likelihood_energy,
                     overwrite=True)
 
             if _MPI_master(comm(iglobal)):
-                with open(join(output_directory, "last_finished_iteration"), "w") as f:
+                lfile = join(output_directory, "last_finished_iteration")
+                with open(lfile + ".tmp", "w") as f:
                     f.write(str(iglobal))
+                replace(lfile + ".tmp", lfile)
                 _pickle_save_values(iglobal, 'energy_history', energy_history)
                 if plot_energy_history:
                     _plot_energy_history(iglobal, energy_history)
